@@ -112,6 +112,50 @@ theorem decode_width (p : List Byte) (hp : p ≠ []) :
                   · by_cases h3 : isCont b3 <;> simp [h2, h3]
                 · simp [h2]
 
+theorem lead4 {x lo hi} (h : lead x = some (4, lo, hi)) : 0xF0 ≤ x ∧ (x ≤ 0xF3 ∨ (x = 0xF4 ∧ hi = 0x8F ∧ lo = 0x80)) := by
+  unfold lead at h
+  repeat' split at h
+  all_goals simp_all
+  all_goals omega
+
+theorem toNat_lt (b : Byte) : b.toNat < 256 := UInt8.toNat_lt b
+
+/-- a decoded rune is never one of the sentinels -/
+theorem decode_lt (p : List Byte) : (decodeRune p).1 < runeEOF := by
+  rcases p with _ | ⟨b0, p⟩
+  · simp [decodeRune, runeError, runeEOF]
+  · unfold decodeRune
+    have := toNat_lt b0
+    by_cases h0 : b0.toNat < 0x80
+    · simp [h0, runeEOF]; omega
+    · cases hl : lead b0.toNat with
+      | none => simp [h0, hl, runeError, runeEOF]
+      | some t =>
+        obtain ⟨sz, lo, hi⟩ := t
+        have hsz := lead_sz hl
+        simp only [h0, hl, if_false]
+        rcases p with _ | ⟨b1, p⟩
+        · simp [runeError, runeEOF]
+        · have := toNat_lt b1
+          by_cases h1 : b1.toNat < lo ∨ hi < b1.toNat
+          · simp [h1, runeError, runeEOF]
+          · simp only [h1, if_false]
+            rcases hsz with rfl | rfl | rfl
+            · simp [runeEOF]; omega
+            · rcases p with _ | ⟨b2, p⟩
+              · simp [runeError, runeEOF]
+              · by_cases h2 : isCont b2 <;> simp [h2, runeError, runeEOF]
+                omega
+            · rcases p with _ | ⟨b2, p⟩
+              · simp [runeError, runeEOF]
+              · by_cases h2 : isCont b2
+                · rcases p with _ | ⟨b3, p⟩
+                  · simp [h2, runeError, runeEOF]
+                  · by_cases h3 : isCont b3 <;> simp [h2, h3, runeError, runeEOF]
+                    have := lead4 hl
+                    omega
+                · simp [h2, runeError, runeEOF]
+
 /-! ## the reader -/
 
 theorem readLoop_nil (cap : Nat) (ew : Bool) (sched : List Nat) :
